@@ -515,6 +515,11 @@ def c04():
     out.append(R("{% for i in (1..2) %}{% capture acc %}{% if i == 1 %}one{% endif %}{% endcapture %}[{{ acc }}]{% endfor %}", {"output": "[one][]"}, {}))
     # include arguments shadow everything and are visible only inside
     out.append(R("{% assign v = 'outer' %}{% include 'p' v: 'arg' %}{{ v }}", {"output": "<arg>outer"}, {}, {"p": "<{{ v }}>"}))
+    # ... also when the argument forwards a variable under its own name, and against assign / capture made INSIDE the partial
+    out.append(R("{% include 'p' x: x %}|{{ x }}", {"output": "[data]|assigned"}, {"x": "data"}, {"p": "{% assign x = 'assigned' %}[{{ x }}]"}, "include arguments shadow variables the partial assigns"))
+    out.append(R("{% assign x = 'outer' %}{% include 'p' x: x %}|{{ x }}", {"output": "[outer]|captured"}, {}, {"p": "{% capture x %}captured{% endcapture %}[{{ x }}]"}, "include arguments shadow variables the partial captures"))
+    out.append(R("{% for x in (1..2) %}{% include 'p' x: x %}{% endfor %}", {"output": "[1][2]"}, {}, {"p": "{% assign x = 'assigned' %}[{{ x }}]"}, "a forwarded loop variable is still an argument"))
+    out.append(R("{% include 'p' y: x %}|{{ y }}", {"output": "[data]|assigned"}, {"x": "data"}, {"p": "{% assign y = 'assigned' %}[{{ y }}]"}))
     # a global assignment that shadows an object hides the object's members
     out.append(R("{% assign user = 'anonymous' %}{% if user.name %}has-name{% else %}no-name{% endif %}", {"output": "no-name"}, {"user": {"name": "bob"}}))
     # counters are shared with rendered partials
@@ -800,12 +805,13 @@ def c08():
         "breaks": [("text", "b"), ("break",), ("text", "NEVER")],
         "continues": [("text", "c"), ("continue",), ("text", "NEVER")],
         "shadow": [("print", "v"), ("assign", "v", ("lit", "inner")), ("print", "v")],
+        "rebinds_x": [("assign", "x", ("lit", "inner")), ("text", "["), ("print", "x"), ("text", "]")],
     }
     srcs = {k: _c08_src(v) for k, v in partial_bodies.items()}
     callers = []
     for tag in ("include", "render"):
         for pname in partial_bodies:
-            for args in ([], [("v", ("lit", "arg"))], [("v", ("var", "x"))], [("x", ("lit", 7))]):
+            for args in ([], [("v", ("lit", "arg"))], [("v", ("var", "x"))], [("x", ("lit", 7))], [("x", ("var", "x"))]):
                 call = (tag, pname, args)
                 callers.append([call, ("text", "|"), ("print", "x")])
                 callers.append([("assign", "x", ("lit", "A")), call, ("text", "|"), ("print", "x")])
@@ -905,10 +911,22 @@ def c14():
             out.append(R("{{ o | where: 'k', 2 | map: 't' | join: '' }}", {"output": "".join(x["t"] for x in o if x.get("k") == 2 and x.get("k") is not False and not isinstance(x.get("k"), bool))}, d, "where keeps, in order, the objects whose property equals the target"))
             out.append(R("{{ o | where: 'k' | map: 't' | join: '' }}", {"output": "".join(x["t"] for x in o if x.get("k") not in (None, False))}, d, "where without target keeps the objects whose property is truthy"))
             out.append(R("{{ o | compact: 'k' | map: 't' | join: '' }}", {"output": "".join(x["t"] for x in o if x.get("k") is not None)}, d, "compact by property removes the objects whose property is nil or missing"))
+            # an explicit nil target is a target: the objects that HAVE the property with a value equal to nil (false == nil in Liquid)
+            out.append(R("{{ o | where: 'k', nil | map: 't' | join: '' }}", {"output": "".join(x["t"] for x in o if "k" in x and (x["k"] is None or x["k"] is False))}, d, "where with a nil target keeps the objects whose property equals nil"))
+            out.append(R("{{ o | where: 'k', nothing | map: 't' | join: '' }}", {"output": "".join(x["t"] for x in o if "k" in x and (x["k"] is None or x["k"] is False))}, dict(d, nothing=None), "where with a nil-valued variable as target"))
             ints = [x for x in o if isinstance(x.get("k"), int) and not isinstance(x.get("k"), bool)]
             if len(ints) == len(o):
                 st = sorted(o, key=lambda x: x["k"])
                 out.append(R("{{ o | sort: 'k' | map: 't' | join: '' }}", {"output": "".join(x["t"] for x in st)}, d, "sort by property is stable"))
+    # property names that collide with the path overlay (size / first / last): map, where, sort read REAL members only
+    sp = [{"name": "a", "size": "M"}, {"name": "b"}, {"name": "c", "size": "L", "first": 1}, {"name": "d", "colour": "x", "last": 2}, {}]
+    for n in range(0, 4):
+        for comb in itertools.permutations(sp, n):
+            o = list(comb)
+            for prop in ("size", "first", "last"):
+                has = [x for x in o if prop in x]
+                out.append(R("{{ o | map: '%s' | join: ',' }}|{{ o | map: '%s' | size }}" % (prop, prop), {"output": ",".join(str(x[prop]) for x in has) + "|" + str(len(has))}, {"o": o}, "map reads real members only"))
+                out.append(R("{{ o | where: '%s' | size }}" % prop, {"output": str(len(has))}, {"o": o}, "where reads real members only"))
     # beyond the 20-element threshold where the standard sort switches algorithm: permutation, order, stability
     import random
     rnd = random.Random(7)
